@@ -168,7 +168,17 @@ func doPackage(rel string) error {
 		Importer: importer.ForCompiler(fset, "source", nil),
 		Error:    func(error) {},
 	}
+	nerr := 0
+	conf.Error = func(err error) {
+		nerr++
+		if nerr <= 3 && !*quiet {
+			fmt.Println("typecheck:", err)
+		}
+	}
 	conf.Check(*mod, fset, files, info)
+	if !*quiet {
+		fmt.Printf("package %s: %d files, %d type errors\n", rel, len(files), nerr)
+	}
 	os.Chdir(cwd)
 
 	out := filepath.Join(*dst, rel)
@@ -265,6 +275,10 @@ func (fc *fileCtx) rewrite() {
 				}
 			}
 		}
+	}
+
+	if *level >= 2 {
+		fc.l2File()
 	}
 
 	// type- and package-level replacements (sync.Mutex, os.X)
@@ -451,6 +465,14 @@ func (fc *fileCtx) stmt(s ast.Stmt) (pre []ast.Stmt, repl ast.Stmt, post []ast.S
 			if *level >= 2 {
 				if ch := commRecvChan(cc); ch != nil {
 					hook = append([]ast.Stmt{exprStmt(fc.rt("NoteRecv", ch))}, hook...)
+				} else if commRecvDone(cc) {
+					hook = append([]ast.Stmt{exprStmt(fc.rt("NoteDone"))}, hook...)
+				}
+				if ss, ok := cc.Comm.(*ast.SendStmt); ok {
+					if id, ok := ss.Chan.(*ast.Ident); ok {
+						pre = append(pre, exprStmt(fc.rt("NoteSend", ast.NewIdent(id.Name))))
+						hook = append([]ast.Stmt{exprStmt(fc.rt("NoteSent", ast.NewIdent(id.Name)))}, hook...)
+					}
 				}
 			}
 			cc.Body = append(hook, body...)
@@ -465,7 +487,14 @@ func (fc *fileCtx) stmt(s ast.Stmt) (pre []ast.Stmt, repl ast.Stmt, post []ast.S
 		site := fc.site(s.Pos(), "send")
 		pre = append(pre, exprStmt(fc.rt("Pre", site)))
 		if *level >= 2 {
-			pre = append(pre, exprStmt(fc.rt("NoteSend", s.Chan)))
+			if id, ok := s.Chan.(*ast.Ident); ok {
+				pre = append(pre, exprStmt(fc.rt("NoteSend", ast.NewIdent(id.Name))))
+			}
+		}
+		if *level >= 2 {
+			if id, ok := s.Chan.(*ast.Ident); ok {
+				post = append(post, exprStmt(fc.rt("NoteSent", ast.NewIdent(id.Name))))
+			}
 		}
 		post = append(post, exprStmt(fc.rt("Post", site)))
 	case *ast.ExprStmt:
@@ -566,6 +595,27 @@ func commRecvChan(cc *ast.CommClause) ast.Expr {
 		}
 	}
 	return nil
+}
+
+// commRecvDone: the clause receives from x.Done() (a context's done channel).
+func commRecvDone(cc *ast.CommClause) bool {
+	var e ast.Expr
+	switch c := cc.Comm.(type) {
+	case *ast.ExprStmt:
+		e = c.X
+	case *ast.AssignStmt:
+		if len(c.Rhs) == 1 {
+			e = c.Rhs[0]
+		}
+	}
+	if u, ok := e.(*ast.UnaryExpr); ok && u.Op == token.ARROW {
+		if c, ok := u.X.(*ast.CallExpr); ok && len(c.Args) == 0 {
+			if se, ok := c.Fun.(*ast.SelectorExpr); ok && se.Sel.Name == "Done" {
+				return true
+			}
+		}
+	}
+	return false
 }
 
 func isWaitCall(c *ast.CallExpr) bool {
@@ -719,4 +769,345 @@ func (fc *fileCtx) isBuiltin(id *ast.Ident) bool {
 		return b
 	}
 	return true
+}
+
+// ---- level 2: memory accesses and the synchronisation the scheduler hooks do not see ------------------
+
+func (fc *fileCtx) l2File() {
+	for _, d := range fc.file.Decls {
+		if fd, ok := d.(*ast.FuncDecl); ok && fd.Body != nil {
+			fc.fn = fd.Name.Name
+			if fd.Recv != nil && len(fd.Recv.List) == 1 {
+				fc.fn = recvName(fd.Recv.List[0].Type) + "." + fd.Name.Name
+			}
+			fc.l2Block(fd.Body)
+		}
+	}
+	fc.fn = ""
+}
+
+func (fc *fileCtx) l2Block(b *ast.BlockStmt) {
+	if b == nil {
+		return
+	}
+	fc.l2List(b.List)
+}
+
+func (fc *fileCtx) l2List(l []ast.Stmt) {
+	for _, s := range l {
+		fc.l2Stmt(s)
+	}
+}
+
+func (fc *fileCtx) l2Stmt(s ast.Stmt) {
+	switch s := s.(type) {
+	case *ast.BlockStmt:
+		fc.l2Block(s)
+	case *ast.LabeledStmt:
+		fc.l2Stmt(s.Stmt)
+	case *ast.ExprStmt:
+		s.X = fc.l2Expr(s.X, false)
+	case *ast.AssignStmt:
+		for i := range s.Rhs {
+			s.Rhs[i] = fc.l2Expr(s.Rhs[i], false)
+		}
+		if s.Tok != token.DEFINE {
+			for i := range s.Lhs {
+				s.Lhs[i] = fc.l2Expr(s.Lhs[i], true)
+			}
+		}
+	case *ast.IncDecStmt:
+		s.X = fc.l2Expr(s.X, true)
+	case *ast.SendStmt:
+		s.Chan = fc.l2Expr(s.Chan, false)
+		s.Value = fc.l2Expr(s.Value, false)
+	case *ast.ReturnStmt:
+		for i := range s.Results {
+			s.Results[i] = fc.l2Expr(s.Results[i], false)
+		}
+	case *ast.IfStmt:
+		if s.Init != nil {
+			fc.l2Stmt(s.Init)
+		}
+		s.Cond = fc.l2Expr(s.Cond, false)
+		fc.l2Block(s.Body)
+		if s.Else != nil {
+			fc.l2Stmt(s.Else)
+		}
+	case *ast.ForStmt:
+		if s.Init != nil {
+			fc.l2Stmt(s.Init)
+		}
+		if s.Cond != nil {
+			s.Cond = fc.l2Expr(s.Cond, false)
+		}
+		if s.Post != nil {
+			fc.l2Stmt(s.Post)
+		}
+		fc.l2Block(s.Body)
+	case *ast.RangeStmt:
+		s.X = fc.l2Expr(s.X, false)
+		if s.Tok == token.ASSIGN {
+			if s.Key != nil {
+				s.Key = fc.l2Expr(s.Key, true)
+			}
+			if s.Value != nil {
+				s.Value = fc.l2Expr(s.Value, true)
+			}
+		}
+		fc.l2Block(s.Body)
+	case *ast.SwitchStmt:
+		if s.Init != nil {
+			fc.l2Stmt(s.Init)
+		}
+		if s.Tag != nil {
+			s.Tag = fc.l2Expr(s.Tag, false)
+		}
+		for _, c := range s.Body.List {
+			cc := c.(*ast.CaseClause)
+			for i := range cc.List {
+				cc.List[i] = fc.l2Expr(cc.List[i], false)
+			}
+			fc.l2List(cc.Body)
+		}
+	case *ast.TypeSwitchStmt:
+		if s.Init != nil {
+			fc.l2Stmt(s.Init)
+		}
+		for _, c := range s.Body.List {
+			fc.l2List(c.(*ast.CaseClause).Body)
+		}
+	case *ast.SelectStmt:
+		for _, c := range s.Body.List {
+			fc.l2List(c.(*ast.CommClause).Body)
+		}
+	case *ast.GoStmt:
+		if e, ok := fc.l2Expr(s.Call, false).(*ast.CallExpr); ok {
+			s.Call = e
+		}
+	case *ast.DeferStmt:
+		if e, ok := fc.l2Expr(s.Call, false).(*ast.CallExpr); ok {
+			s.Call = e
+		}
+	case *ast.DeclStmt:
+		if gd, ok := s.Decl.(*ast.GenDecl); ok && gd.Tok == token.VAR {
+			for _, sp := range gd.Specs {
+				if vs, ok := sp.(*ast.ValueSpec); ok {
+					for i := range vs.Values {
+						vs.Values[i] = fc.l2Expr(vs.Values[i], false)
+					}
+				}
+			}
+		}
+	}
+}
+
+func (fc *fileCtx) isTypeExpr(e ast.Expr) bool {
+	tv, ok := fc.info.Types[e]
+	return ok && tv.IsType()
+}
+
+func isSyncType(t types.Type) bool {
+	for {
+		if p, ok := t.(*types.Pointer); ok {
+			t = p.Elem()
+			continue
+		}
+		break
+	}
+	if n, ok := t.(*types.Named); ok && n.Obj().Pkg() != nil {
+		switch n.Obj().Pkg().Path() {
+		case "sync", "sync/atomic":
+			return true
+		}
+	}
+	return false
+}
+
+// fieldSel reports whether e is an addressable struct-field selection.
+func (fc *fileCtx) fieldSel(e ast.Expr) (*ast.SelectorExpr, bool) {
+	se, ok := e.(*ast.SelectorExpr)
+	if !ok {
+		return nil, false
+	}
+	sel, ok := fc.info.Selections[se]
+	if !ok || sel.Kind() != types.FieldVal {
+		return nil, false
+	}
+	return se, true
+}
+
+func (fc *fileCtx) wrapAccess(e ast.Expr, write bool) ast.Expr {
+	name, kind := "RP", "rd"
+	if write {
+		name, kind = "WP", "wr"
+	}
+	st.sites["mem"+kind]++
+	p := fc.fset.Position(e.Pos())
+	site := &ast.BasicLit{Kind: token.STRING, Value: strconv.Quote(fmt.Sprintf("%s:%d:%s@%s", filepath.Base(p.Filename), p.Line, kind, fc.fn))}
+	return &ast.ParenExpr{X: &ast.StarExpr{X: fc.rt(name, &ast.UnaryExpr{Op: token.AND, X: e}, site)}}
+}
+
+// l2Base processes the part of a field chain below the location itself.
+func (fc *fileCtx) l2Base(se *ast.SelectorExpr) {
+	if inner, ok := fc.fieldSel(se.X); ok {
+		if tv, ok2 := fc.info.Types[se.X]; ok2 {
+			if _, isPtr := tv.Type.Underlying().(*types.Pointer); !isPtr {
+				// struct-valued field: same location, keep descending
+				fc.l2Base(inner)
+				return
+			}
+		}
+	}
+	se.X = fc.l2Expr(se.X, false)
+}
+
+func (fc *fileCtx) l2Expr(e ast.Expr, write bool) ast.Expr {
+	switch e := e.(type) {
+	case nil:
+		return nil
+	case *ast.Ident:
+		obj, ok := fc.info.Uses[e]
+		if !ok {
+			return e
+		}
+		v, ok := obj.(*types.Var)
+		if !ok || v.IsField() || v.Pkg() == nil || v.Parent() != v.Pkg().Scope() || e.Name == "_" {
+			return e
+		}
+		if isSyncType(v.Type()) {
+			return e
+		}
+		return fc.wrapAccess(e, write)
+	case *ast.SelectorExpr:
+		se, ok := fc.fieldSel(e)
+		if !ok {
+			if _, isSel := fc.info.Selections[e]; isSel {
+				e.X = fc.l2Expr(e.X, false) // method value / method expression: receiver is read
+			}
+			return e
+		}
+		tv, ok := fc.info.Types[se]
+		if !ok || !tv.Addressable() || isSyncType(tv.Type) {
+			se.X = fc.l2Expr(se.X, false)
+			return se
+		}
+		fc.l2Base(se)
+		return fc.wrapAccess(se, write)
+	case *ast.IndexExpr:
+		if fc.isTypeExpr(e.Index) {
+			return e // generic instantiation
+		}
+		e.X = fc.l2Expr(e.X, false)
+		e.Index = fc.l2Expr(e.Index, false)
+		return e
+	case *ast.SliceExpr:
+		e.X = fc.l2Expr(e.X, false)
+		e.Low, e.High, e.Max = fc.l2Expr(e.Low, false), fc.l2Expr(e.High, false), fc.l2Expr(e.Max, false)
+		return e
+	case *ast.StarExpr:
+		if fc.isTypeExpr(e) {
+			return e
+		}
+		e.X = fc.l2Expr(e.X, false)
+		return e
+	case *ast.UnaryExpr:
+		if e.Op == token.AND {
+			if se, ok := fc.fieldSel(e.X); ok {
+				fc.l2Base(se)
+			}
+			return e
+		}
+		if e.Op == token.ARROW {
+			return e
+		}
+		e.X = fc.l2Expr(e.X, false)
+		return e
+	case *ast.BinaryExpr:
+		e.X = fc.l2Expr(e.X, false)
+		e.Y = fc.l2Expr(e.Y, false)
+		return e
+	case *ast.ParenExpr:
+		if fc.isTypeExpr(e) {
+			return e
+		}
+		e.X = fc.l2Expr(e.X, write)
+		return e
+	case *ast.TypeAssertExpr:
+		e.X = fc.l2Expr(e.X, false)
+		return e
+	case *ast.KeyValueExpr:
+		e.Value = fc.l2Expr(e.Value, false)
+		return e
+	case *ast.CompositeLit:
+		for i := range e.Elts {
+			e.Elts[i] = fc.l2Expr(e.Elts[i], false)
+		}
+		return e
+	case *ast.FuncLit:
+		fc.l2Block(e.Body)
+		return e
+	case *ast.CallExpr:
+		// calls into the simulator runtime inserted by level 1: only their non-literal args
+		if se, ok := e.Fun.(*ast.SelectorExpr); ok {
+			if id, ok := se.X.(*ast.Ident); ok && (id.Name == "simrt" || id.Name == "simfs") {
+				if _, known := fc.info.Uses[id]; !known {
+					for i := range e.Args {
+						if _, isLit := e.Args[i].(*ast.BasicLit); !isLit {
+							e.Args[i] = fc.l2Expr(e.Args[i], false)
+						}
+					}
+					return e
+				}
+			}
+		}
+		if fc.isTypeExpr(e.Fun) {
+			for i := range e.Args {
+				e.Args[i] = fc.l2Expr(e.Args[i], false)
+			}
+			return e
+		}
+		// wg.Done() and cancel() carry happens-before edges the scheduler hooks do not see
+		if se, ok := e.Fun.(*ast.SelectorExpr); ok && se.Sel.Name == "Done" && len(e.Args) == 0 {
+			if tv, ok := fc.info.Types[se.X]; ok && isWaitGroup(tv.Type) {
+				se.X = fc.l2Expr(se.X, false)
+				return fc.rt("WgDone", se)
+			}
+		}
+		if tv, ok := fc.info.Types[e.Fun]; ok && len(e.Args) == 0 && isCancelFunc(tv.Type) {
+			return fc.rt("Cancel", fc.l2Expr(e.Fun, false))
+		}
+		if id, ok := e.Fun.(*ast.Ident); ok {
+			if _, isB := fc.info.Uses[id].(*types.Builtin); isB {
+				for i := range e.Args {
+					if !fc.isTypeExpr(e.Args[i]) {
+						e.Args[i] = fc.l2Expr(e.Args[i], false)
+					}
+				}
+				return e
+			}
+		}
+		e.Fun = fc.l2Expr(e.Fun, false)
+		for i := range e.Args {
+			e.Args[i] = fc.l2Expr(e.Args[i], false)
+		}
+		return e
+	}
+	return e
+}
+
+func isWaitGroup(t types.Type) bool {
+	if p, ok := t.(*types.Pointer); ok {
+		t = p.Elem()
+	}
+	n, ok := t.(*types.Named)
+	return ok && n.Obj().Pkg() != nil && n.Obj().Pkg().Path() == "sync" && n.Obj().Name() == "WaitGroup"
+}
+
+func isCancelFunc(t types.Type) bool {
+	n, ok := t.(*types.Named)
+	if ok && n.Obj().Pkg() != nil && n.Obj().Pkg().Path() == "context" && (n.Obj().Name() == "CancelFunc" || n.Obj().Name() == "CancelCauseFunc") {
+		return true
+	}
+	return false
 }
